@@ -87,6 +87,11 @@ impl Registry {
         if let Some(base_unit) = self.base_units.get(name) {
             return Some(base_unit.to_string());
         }
+        // `definitions` also holds the quantities (`mass`, `length`),
+        // which `lookup` does not read as units.
+        if !self.units.contains_key(name) {
+            return None;
+        }
         if let Some(expr) = self.definitions.get(name) {
             if let Expr::Unit { ref name } = *expr {
                 if let Some(canonicalized) = self.canonicalize(&*name) {
